@@ -35,18 +35,58 @@ type fullEv struct {
 	Match int64  `json:"match"`
 	Inc   bool   `json:"inc"`
 	Pat   string `json:"pat"`
+	// args (daemon protocol): the options as a server parsing the argument lines left to right ends up with
+	Sender bool            `json:"sender"`
+	SOpts  map[string]bool `json:"sopts,omitempty"`
 }
 
 type fullObs struct {
 	Dir    string   `json:"dir"`
+	Mode   string   `json:"mode"` // cmd | daemon
 	Events []fullEv `json:"events"`
 	Err    string   `json:"err"`
 }
 
 type fullOpts struct {
-	List wirekit.ListOpts
-	Dry  bool
-	Del  bool
+	List   wirekit.ListOpts
+	Dry    bool
+	Del    bool
+	Daemon bool // the daemon protocol (text greetings, module, OK, argument lines) instead of the binary version exchange
+}
+
+// serverView parses daemon argument lines the way a protocol-27 server does: left to right, a later option
+// overriding an earlier one, -D meaning --devices --specials.
+func serverView(lines []string) (sender bool, o map[string]bool) {
+	o = map[string]bool{"r": false, "l": false, "p": false, "t": false, "dv": false, "sp": false, "c": false, "I": false, "n": false, "del": false, "o": false, "g": false}
+	long := map[string][2]string{"--delete": {"del", "1"}, "--devices": {"dv", "1"}, "--specials": {"sp", "1"}, "--no-devices": {"dv", ""}, "--no-specials": {"sp", ""},
+		"--checksum": {"c", "1"}, "--dry-run": {"n", "1"}, "--ignore-times": {"I", "1"}, "--recursive": {"r", "1"}, "--links": {"l", "1"}, "--perms": {"p", "1"},
+		"--times": {"t", "1"}, "--owner": {"o", "1"}, "--group": {"g", "1"}, "--no-D": {"", ""}}
+	for _, a := range lines {
+		switch {
+		case a == "--sender":
+			sender = true
+		case a == "--no-D":
+			o["dv"], o["sp"] = false, false
+		case strings.HasPrefix(a, "--"):
+			if kv, ok := long[a]; ok && kv[0] != "" {
+				o[kv[0]] = kv[1] != ""
+			}
+		case strings.HasPrefix(a, "-") && len(a) > 1:
+			for _, c := range a[1:] {
+				switch c {
+				case 'r', 'l', 'p', 't', 'c', 'I', 'n', 'o', 'g':
+					o[string(c)] = true
+				case 'D':
+					o["dv"], o["sp"] = true, true
+				case 'a':
+					for _, k := range []string{"r", "l", "p", "t", "g", "o", "dv", "sp"} {
+						o[k] = true
+					}
+				}
+			}
+		}
+	}
+	return
 }
 
 // lstream is one physical direction as a logical byte stream plus the map
@@ -91,15 +131,74 @@ func (r *wireRec) analyseFull(push bool, fo fullOpts) *fullObs {
 		out.Dir = "push"
 	}
 	fail := func(f string, a ...any) *fullObs { out.Err = fmt.Sprintf(f, a...); return out }
+	out.Mode = "cmd"
+	if fo.Daemon {
+		out.Mode = "daemon"
+	}
+	// ---- the text preamble of the daemon protocol
+	readLine := func(b []byte, pos int) (string, int, bool) {
+		for i := pos; i < len(b); i++ {
+			if b[i] == '\n' {
+				return string(b[pos:i]), i + 1, true
+			}
+		}
+		return "", pos, false
+	}
+	type pre struct {
+		item string
+		end  int
+		args []string
+	}
+	var cpre, spre []pre
+	cpos, spos := 0, 0
+	if fo.Daemon {
+		l, p, ok := readLine(r.up, cpos)
+		if !ok || l != "@RSYNCD: 27" {
+			return fail("client greeting %q", l)
+		}
+		cpos = p
+		cpre = append(cpre, pre{"greet", cpos, nil})
+		if l, p, ok = readLine(r.up, cpos); !ok {
+			return fail("client stream: no module line")
+		}
+		cpos = p
+		cpre = append(cpre, pre{"module", cpos, nil})
+		var args []string
+		for {
+			if l, p, ok = readLine(r.up, cpos); !ok {
+				return fail("client stream: argument lines not terminated")
+			}
+			cpos = p
+			if l == "" {
+				break
+			}
+			args = append(args, l)
+		}
+		cpre = append(cpre, pre{"args", cpos, args})
+		if l, p, ok = readLine(r.down, spos); !ok || !strings.HasPrefix(l, "@RSYNCD: 27") {
+			return fail("server greeting %q", l)
+		}
+		spos = p
+		spre = append(spre, pre{"greet", spos, nil})
+		if l, p, ok = readLine(r.down, spos); !ok || l != "@RSYNCD: OK" {
+			return fail("server reply %q", l)
+		}
+		spos = p
+		spre = append(spre, pre{"ok", spos, nil})
+	}
 	// ---- the two physical streams as logical streams
 	c2s := &lstream{phys: "up", b: r.up, rawEnd: func(l int) int { return l }}
-	if len(r.down) < 8 {
+	hdr := spos + 4 // raw bytes of the server stream before multiplexing starts: [version] seed
+	if !fo.Daemon {
+		hdr = 8
+	}
+	if len(r.down) < hdr {
 		return fail("server stream: short (%d bytes)", len(r.down))
 	}
 	type seg struct{ lstart, rstart, n int }
 	var segs []seg
-	logical := append([]byte(nil), r.down[:8]...)
-	for pos := 8; pos < len(r.down); {
+	logical := append([]byte(nil), r.down[:hdr]...)
+	for pos := hdr; pos < len(r.down); {
 		if pos+4 > len(r.down) {
 			return fail("server stream: truncated frame header at %d", pos)
 		}
@@ -119,7 +218,7 @@ func (r *wireRec) analyseFull(push bool, fo fullOpts) *fullObs {
 	}
 	rawLen := len(r.down)
 	s2c := &lstream{phys: "down", b: logical, rawEnd: func(lend int) int {
-		if lend <= 8 {
+		if lend <= hdr {
 			return lend
 		}
 		i := sort.Search(len(segs), func(i int) bool { return segs[i].lstart+segs[i].n >= lend })
@@ -136,17 +235,30 @@ func (r *wireRec) analyseFull(push bool, fo fullOpts) *fullObs {
 	}
 	var items []fItem
 	add := func(ls *lstream, lend int, ev fullEv) { items = append(items, fItem{ev, ls.phys, ls.rawEnd(lend)}) }
-	// ---- handshake: client version; server version and seed
-	cr := &posReader{b: c2s.b}
-	sr := &posReader{b: s2c.b}
-	if v, err := cr.i32(); err != nil || v != 27 {
-		return fail("client version: %v %v", v, err)
+	cr := &posReader{b: c2s.b, pos: cpos}
+	sr := &posReader{b: s2c.b, pos: spos}
+	if fo.Daemon {
+		for _, x := range cpre {
+			ev := fullEv{Ch: cliCh, Item: x.item}
+			if x.item == "args" {
+				ev.Sender, ev.SOpts = serverView(x.args)
+			}
+			add(c2s, x.end, ev)
+		}
+		for _, x := range spre {
+			add(s2c, x.end, fullEv{Ch: srvCh, Item: x.item})
+		}
+	} else {
+		// ---- handshake: client version; server version
+		if v, err := cr.i32(); err != nil || v != 27 {
+			return fail("client version: %v %v", v, err)
+		}
+		add(c2s, cr.pos, fullEv{Ch: cliCh, Item: "ver"})
+		if v, err := sr.i32(); err != nil || v != 27 {
+			return fail("server version: %v %v", v, err)
+		}
+		add(s2c, sr.pos, fullEv{Ch: srvCh, Item: "ver"})
 	}
-	add(c2s, cr.pos, fullEv{Ch: cliCh, Item: "ver"})
-	if v, err := sr.i32(); err != nil || v != 27 {
-		return fail("server version: %v %v", v, err)
-	}
-	add(s2c, sr.pos, fullEv{Ch: srvCh, Item: "ver"})
 	if _, err := sr.i32(); err != nil {
 		return fail("seed: %v", err)
 	}
